@@ -37,10 +37,22 @@ Does NOT require:
 
 Violation keys: `<resource>[<detail>,<bounded|grows>]:<minimal kind signature>:<capture>:<redirect>
 [:fault=<call>#<n>@<thread role>:<error>]`.  Many inputs share a root cause, so a violating case
-is first reduced over the enumerated results (drop the fault, capture -> bare, redirect -> none,
-stage kind -> its class representative -> ext_ok, drop a stage) as long as the reduced case was
-enumerated too and shows the *same* resource signature; the key names the fixpoint.  A different
-defect survives reduction at a different shape or with a different signature, hence a new key.
+is first reduced (drop the fault / turn the failing Popen into a missing command, capture -> bare,
+redirect -> none, stage kind -> its class representative -> ext_ok, drop a stage) as long as the
+reduced case - taken from the enumerated results, executed on demand when it was not enumerated -
+shows the *same* resource signature; the key names the fixpoint.  A different defect survives
+reduction at a different shape or with a different signature, hence a new key.
+
+Real threads run in real time here, so three guards keep the verdict independent of scheduling:
+  * observations of the scheduling-sensitive classes (child/thread left, Ctrl-C probe, ...) and
+    every provisional key carried by fewer than 3 cases count only when the same case shows them
+    in 3 runs out of 3 (dropped ones are counted in the evidence, never reported);
+  * a run in which a stage thread died inside xonsh's own code (not in the alias; seen through
+    threading.excepthook) is keyed by that death - `stage-thread-died[<class>:<error>@<where>]`
+    when reproduced 3/3, `race:stage-thread-died[<class>]` when intermittent - because where the
+    thread died is the root cause and the shape only decides the timing;
+  * damage to sys.std* (stage threads swap the process-global streams) is keyed by the number of
+    threaded stages, `stdio[...]:threaded-stages=<n>[:with-fault]`, not by the exact shape.
 """
 
 import itertools
@@ -531,6 +543,21 @@ def run(ctx):
         for sig in r["sigs"]:
             if not sig.startswith("stdio"):
                 prov[(cid, sig)] = inset.reduce(cid, sig, on_demand=False)
+    # outliers: a provisional key carried by fewer than 3 cases is confirmed like the
+    # scheduling-sensitive classes (its cases are re-run twice; 3 out of 3 or it is dropped)
+    support = Counter((m, sig) for (_c, sig), m in prov.items())
+    confirmed = set(todo)
+    rare = sorted({c for (c, sig), m in prov.items() if support[(m, sig)] < 3 and c not in confirmed}, key=repr)
+    again2 = common.pmap(_run, [cases_by_cid[c] for c in rare for _ in range(2)], ctx.jobs, chunk=2, init=_init, seed=ctx.seed)
+    for i, cid in enumerate(rare):
+        r = results[cid]
+        runs = again2[2 * i : 2 * i + 2]
+        for sig in list(r["sigs"]):
+            if (cid, sig) in prov and support[(prov[(cid, sig)], sig)] < 3 and not all(sig in a["sigs"] and not a["deaths"] for a in runs):
+                unconfirmed[sig.split("[")[0]] += 1
+                del r["sigs"][sig]
+                del prov[(cid, sig)]
+    ctx.log(f"outlier confirmation: {len(rare)} cases re-run twice; dropped so far: {dict(unconfirmed)}")
     fix = sorted({(m, sig) for (_c, sig), m in prov.items()}, key=repr)
     _RESULTS = results
     fin = common.pmap(_reduce_worker, fix, ctx.jobs, chunk=1, init=_init, seed=ctx.seed)
@@ -581,7 +608,7 @@ def run(ctx):
     for cid in common.pick_samples([c for c in order if c[3] is None], ctx.seed, 5) + common.pick_samples([c for c in order if c[3] is not None], ctx.seed, 4):
         case, r = cases_by_cid[cid], results[cid]
         ctx.sample({"line": H.render(case), "fault": case["fault"], "outcomes": r["outcomes"], "acquisition_log": r["log"], "violated": sorted(r["sigs"])})
-    total = len(main_cases) + len(rec_cases) + len(fault_cases) + 2 * len(todo) + extra_runs
+    total = len(main_cases) + len(rec_cases) + len(fault_cases) + 2 * len(todo) + 2 * len(rare) + extra_runs
     nontrivial = {c for c in order if (c[3] is None and _deviations(*c[:3]) > 0)} | {_cid(c) for c, r in zip(fault_cases, fres) if r["fired"]}
     ctx.coverage.update(
         evaluations=total,
@@ -597,7 +624,7 @@ def run(ctx):
         repetitions_per_case=3,
         cases_with_violation=n_viol_cases,
         cases_with_stage_thread_death=n_tainted,
-        confirmation_reruns=2 * len(todo),
+        confirmation_reruns=2 * len(todo) + 2 * len(rare),
         unconfirmed_observations_dropped=dict(unconfirmed),
         extra_runs_for_key_reduction=extra_runs,
         bounds={
